@@ -6,6 +6,9 @@ field menus x align_corners x dtype x batch size x argument forms. Sub-checks:
     compose-affine     compose_flows(u, v, ac) == (U + V (I + U)) [x;1] for affine displacement pairs whose first
                        map keeps the sample hull invariant (verified by the reference), both conventions
     compose-identity   compose_flows(u, 0) == u (value identical), compose_flows(0, v) == v (rounding)
+    compose-translation compose_flows(u, const) == u + const at every sample whose displaced position stays inside the
+                       cube [-1,1]^D, also in the half-sample margin beyond the outermost sample centres
+                       (align_corners=False): sub-sample shifts, expansions, generic u; both conventions
     compose-flag       compose_flows(u, v, ac) == u + (v interpolated multilinearly at x + u, border clamped) with
                        the sample positions of the GIVEN convention, for smooth / generic non-affine pairs
     bracket-antisym    lie_bracket(v, u) == -lie_bracket(u, v)
@@ -63,7 +66,7 @@ MIN_OUTCOMES = {"quick": 8000, "thorough": 17000}
 MIN_SUB_TRACES = {
     "compose-affine": 1000, "compose-identity": 200, "compose-flag": 100, "bracket-antisym": 100,
     "bracket-bilinear": 500, "bch-commuting": 500, "bch-affine-series": 500, "bch-affine-error": 50,
-    "bch-smooth-error": 20, "logv-roundtrip": 100, "call-sequence": 150,
+    "bch-smooth-error": 20, "logv-roundtrip": 100, "call-sequence": 150, "compose-translation": 500,
 }
 
 C = 64.0
@@ -885,6 +888,86 @@ def case_call_sequence(case) -> Result:
     return r
 
 
+
+# ---------------------------------------------------------------------------
+TRANSL_V = [[0.1, -0.2, 0.05], [-0.07, 0.03, 0.11], [0.5, 0.5, -0.5]]
+TRANSL_U = ["shift:+0.5", "shift:-0.5", "shift:+0.25", "shift:-0.4:0.3", "expand:0.5", "expand:0.9", "generic:0.45", "zero"]
+
+
+def transl_u(spec: str, shape, ac: bool, seed: int) -> np.ndarray:
+    """First field of compose-translation, amplitudes in SAMPLES (sub-sample): moves the outer samples into the
+    half-sample margin between the last sample centre and the cube boundary (align_corners=False)."""
+    shape = tuple(shape)
+    D = len(shape)
+    kind, _, rest = spec.partition(":")
+    if kind == "zero":
+        return np.zeros((D,) + shape)
+    if kind == "shift":
+        a = [float(x) for x in rest.split(":")]
+        vals = [a[c % len(a)] * (1 if c % 2 == 0 else -1) for c in range(D)]
+        return fa.from_samples(np.stack([np.full(shape, v) for v in vals]), ac)
+    if kind == "expand":
+        # x -> (1 + e_c) x with e_c such that the outermost sample moves outwards by <rest> samples
+        X = fa.cube_points(shape, ac)
+        k = fa.samples_per_unit(shape, ac)
+        h = fa.half_widths(shape, ac)
+        return np.stack([X[..., c] * (float(rest) / k[c]) / max(h[c], 1e-9) for c in range(D)])
+    if kind == "generic":
+        g = fa.generic_field(shape, ac, seed, 1.0)
+        return fa.from_samples(g * float(rest), ac)
+    raise KeyError(spec)
+
+
+def case_compose_translation(case) -> Result:
+    """v constant: u + v(x + u) = u + v exactly at every sample whose displaced position stays inside the cube
+    [-1, 1]^D (the domain; for align_corners=False it extends half a sample beyond the outermost sample centres)."""
+    from deepali.core.flow import compose_flows
+
+    r = Result()
+    shape, ac, dtype, N = tuple(case["shape"]), case["ac"], case["dtype"], case["N"]
+    D = len(shape)
+    vv = TRANSL_V[case["v"]][:D]
+    specs = [case["u"]] + ([TRANSL_U[(TRANSL_U.index(case["u"]) + 3) % len(TRANSL_U)]] if N == 2 else [])
+    u = np.stack([transl_u(sp, shape, ac, case["seed"]) for sp in specs])
+    v = np.stack([np.stack([np.full(shape, c) for c in vv])] * N)
+    tu, tv = _t(u, dtype), _t(v, dtype)
+    tail = _tail(case)
+    st, out = guarded(lambda: compose_flows(tu, tv, align_corners=ac))
+    r.trans += 1
+    if st == "raises":
+        r.bad(f"C13/compose-translation/{tail}/raises={type(out).__name__}", exc_text(out))
+        return r
+    if not _ok_tensor(out, u.shape):
+        r.bad(f"C13/compose-translation/{tail}/shape", f"{type(out).__name__} {getattr(out, 'shape', None)}")
+        return r
+    o = _np(out)
+    r.outcomes.append(h64(o))
+    uu, vn = _np(tu), _np(tv)
+    X = fa.cube_points(shape, ac)
+    hull = fa.half_widths(shape, ac)
+    for i in range(N):
+        pos = X + np.moveaxis(uu[i], 0, -1)
+        inside = np.all(np.abs(pos) <= 1.0 + 1e-9, axis=-1)
+        if not inside.all():
+            r.undef.append("displaced-samples-outside-the-cube-not-judged")
+        if inside.sum() < 0.5 * inside.size:
+            continue
+        margin = inside & np.any(np.abs(pos) > hull * (1 + 1e-6), axis=-1)
+        exp = uu[i] + vn[i]
+        tol = C * EPS[dtype] * (float(np.abs(uu[i]).max()) + float(np.abs(vn[i]).max()))
+        err = float(np.abs(o[i] - exp)[:, inside].max())
+        r.judged += 1
+        if margin.any():
+            r.nontriv.append(h64("ct", case["shape"], ac, specs[i], case["v"], dtype))
+        if not np.isfinite(err) or err > tol:
+            where = "in the half-sample margin beyond the outermost sample centres" if margin.any() and float(np.abs(o[i] - exp)[:, inside & ~margin].max() if (inside & ~margin).any() else 0.0) <= tol else "inside the sample hull"
+            r.bad(
+                f"C13/compose-translation/{tail}/mismatch",
+                f"max |compose_flows(u, const) - (u + const)| = {err:.3e} > tol {tol:.2e}, {where} (u={specs[i]} samples, v={vv}, shape {shape}, item {i})",
+            )
+    return r
+
+
 KINDS = {
     "compose-affine": case_compose_affine,
     "compose-identity": case_compose_identity,
@@ -897,6 +980,7 @@ KINDS = {
     "bch-smooth-error": case_bch_smooth_error,
     "logv-roundtrip": case_logv,
     "call-sequence": case_call_sequence,
+    "compose-translation": case_compose_translation,
 }
 
 AMPS = [0.1, 0.25, 0.5]
@@ -914,6 +998,11 @@ def cases_of(shard):
                     forms = ["kw", "pos"] + (["default"] if shard["ac"] else [])
                     for form in forms if (u, v) in (("rot", "shear"), ("generic", "expand")) else ["kw"]:
                         yield {**base, "N": N, "u": u, "v": v, "form": form}
+    elif kind == "compose-translation":
+        for N in (1, 2):
+            for uspec in TRANSL_U:
+                for vi in range(len(TRANSL_V)):
+                    yield {**base, "N": N, "u": uspec, "v": vi}
     elif kind == "compose-identity":
         for N in (1, 2):
             for f in IDENTITY_FIELDS:
@@ -977,7 +1066,7 @@ def shards(tier: str, seed: int):
     for shape in affine_shapes(tier):
         for dtype in ("f32", "f64"):
             for ac in (True, False):
-                for kind in ("compose-affine", "compose-identity", "bch-commuting", "bch-affine-series", "bch-affine-error"):
+                for kind in ("compose-affine", "compose-identity", "compose-translation", "bch-commuting", "bch-affine-series", "bch-affine-error"):
                     out.append({"tier": tier, "seed": seed, "kind": kind, "shape": list(shape), "ac": ac, "dtype": dtype})
     for shape in affine_shapes(tier):
         # one process per shape: all ordered pairs of configurations are called one after the other
